@@ -21,7 +21,9 @@ from recipes import gen_ctx, render_ctx
 from shrink import prog_control_in_operand, shrink, children_paths
 
 PROOF_MODULES = ["PyTealV.Proofs.C03OptFrameTac", "PyTealV.Proofs.C03OptFrame1", "PyTealV.Proofs.C03OptFrame2", "PyTealV.Proofs.C03OptFrame3",
-                 "PyTealV.Proofs.C03OptFrame4", "PyTealV.Proofs.C03OptFrame5", "PyTealV.Proofs.C03OptFrame", "PyTealV.Proofs.C03OptLemmas", "PyTealV.Proofs.C03Opt"]
+                 "PyTealV.Proofs.C03OptFrame4", "PyTealV.Proofs.C03OptFrame5", "PyTealV.Proofs.C03OptFrame", "PyTealV.Proofs.C03OptLemmas", "PyTealV.Proofs.C03Opt",
+                 # option independence as a theorem for the fragment of the composed compilation theorems (scratch-slot optimiser off)
+                 "PyTealV.Proofs.C03Options"]
 TRUSTED = [
     "Lean 4 kernel; axioms propext, Classical.choice, Quot.sound only",
     "AVM spec lean/PyTealV/Avm (both programs of a pair run on the same spec, so opcode semantics cancel out except for control and stack)",
@@ -137,6 +139,7 @@ def run(tier: str) -> int:
     distinct, samples, evaluations = set(), [], 0
     import time
     budget = 75 if tier == "quick" else 1500
+    thm_budget = 40 if tier == "quick" else 600   # programs on which the hypotheses of the option-independence theorem are evaluated
     directed = directed_programs()
     stats["directed programs"] = len(directed)
     t_loop0 = time.time()
@@ -209,6 +212,25 @@ def run(tier: str) -> int:
                 stats["crash:" + c.res[1]] += 1
         if len(cases) < 2:
             continue
+        # does the theorem `C03Options.options_agree` apply to this program: at least two unoptimised settings whose real
+        # output satisfies `Check.originalB` (driver `composed-sexp … original=true`) for the same theorem class?
+        unopt = [c for c in cases if not c.opts.get("scratch_slots")]
+        if len(unopt) >= 2 and thm_budget > 0:
+            thm_budget -= 1
+            classes = Counter()
+            for c in unopt:
+                fpf = 1 if c.opts.get("frame_pointers", c.version >= 8) else 0
+                ans = d.ask(f"composed-sexp {c.version} {fpf} {c.teal.encode().hex()} {c.sexp}")
+                stats["options_theorem:setting:" + ("original=true" if " original=true" in ans else "original=false")] += 1
+                if " original=true" in ans and not ans.startswith("composed=partial"):
+                    classes["ref" if " thm=ref" in ans else "plain"] += 1
+            best = max(classes.values(), default=0)
+            stats["options_theorem:programs checked"] += 1
+            if best >= 2:
+                stats["options_theorem:programs with >=2 settings inside options_agree"] += 1
+                stats["options_theorem:setting pairs inside options_agree"] += sum(n * (n - 1) // 2 for n in classes.values())
+            else:
+                stats["options_theorem:programs outside (fewer than 2 settings with original=true)"] += 1
         ctxs = [gen_ctx(r, mode, 10) for _ in range(nctx)]
         base = cases[0]
         for c in cases[1:]:
@@ -257,6 +279,7 @@ def run(tier: str) -> int:
                 "optimised vs unoptimised twins); distinct = distinct emitted TEAL texts",
         "samples": samples or [{"note": "none"}],
         "optimizer_tie": opt_cov,
+        "options_theorem": {k.split(":", 1)[1]: v for k, v in sorted(stats.items()) if k.startswith("options_theorem:")},
         "distribution": {"constructs": dict(gstats.most_common(30)), "run": dict(sorted(stats.items()))},
     }
     if st is not None:
